@@ -255,16 +255,22 @@ structure WState where
   blockStart : Bool := true     -- first_ordinal_of_the_block == num_terms
   lastBlockKey : Option Key := none  -- last_key_or_greater of the last closed block
 
+/-- the assert of find_shorter_str_in_between, reached only for the first key of a block -/
+def WState.sepOk (s : WState) (k : Key) : Bool :=
+  if s.blockStart then (match s.lastBlockKey with | some l => lexLt l k | none => true) else true
+
+/-- state after an accepted key: the block is closed iff its key bytes exceed `blockLen` -/
+def WState.next (blockLen : Nat) (s : WState) (k : Key) : WState :=
+  if s.blockBytes + (entryBytes s.prev k).length > blockLen then
+    { prev := [], blockBytes := 0, blockStart := true, lastBlockKey := some k }
+  else
+    { prev := k, blockBytes := s.blockBytes + (entryBytes s.prev k).length, blockStart := false,
+      lastBlockKey := s.lastBlockKey }
+
 /-- one `Writer::insert`; `none` = panic (assert of insert_key, or the assert of
 find_shorter_str_in_between at a block start) -/
 def WState.insert (blockLen : Nat) (s : WState) (k : Key) : Option WState :=
-  let sepOk := if s.blockStart then (match s.lastBlockKey with | some l => lexLt l k | none => true) else true
-  if !sepOk then none
-  else if increasingKeys s.prev k ≠ some true then none
-  else
-    let n := s.blockBytes + (entryBytes s.prev k).length
-    if n > blockLen then some { prev := [], blockBytes := 0, blockStart := true, lastBlockKey := some k }
-    else some { prev := k, blockBytes := n, blockStart := false, lastBlockKey := s.lastBlockKey }
+  if s.sepOk k = true ∧ increasingKeys s.prev k = some true then some (s.next blockLen k) else none
 
 /-- index of the first rejected key, `none` if the whole sequence is accepted -/
 def firstRejected (blockLen : Nat) : WState → List Key → Nat → Option Nat
